@@ -426,8 +426,8 @@ def known_class(c, rec, verdict, known):
     """narrow, syntactic classes of the two recorded mechanisms (see known_findings.json)"""
     ids = {f["class"] for f in known}
     m = c["meta"]
-    if not m.get("kind", "").startswith("arith-"):
-        return None
+    if not m.get("kind", "").startswith("arith-") or "unit" not in m:
+        return None                       # (the pinned arith-zone / arith-year-month cases carry no class)
     unit, n, op, ymd = m["unit"], m["n"], m["op"], m.get("ymd")
     lines = last_lines(rec)
     failed = bool(lines) and len(lines) == 1 and line_value(lines[0])[0] == "err"
